@@ -333,12 +333,16 @@ impl C07 {
         d.gen.cfg.persist_pm = 0;
         let fsz = d.file_size as usize;
         let nops = rng.usize(20, 60);
+        // what was appended, according to the sequential specification: the round trip is
+        // judged against it, not against the library's own live view
+        let mut model = crate::ops::Model::new(key);
         for i in 0..nops {
             let st = if i + 1 == nops {
                 d.apply(Op::Restart)
             } else {
                 d.step()
             };
+            model.apply(st.k, &st.op);
             if st.outcome.is_io_err() {
                 acc.inconclusive(format!("I/O error from a live call: {:?}", st.outcome));
                 return;
@@ -421,6 +425,15 @@ impl C07 {
                         format!("C07/through-files/round-trip/{}", super::common::diff_class(&before, &after)),
                         case,
                         json!({"history": d.history_json(200), "diff": diff, "cursor_before_restart": d.cursor}),
+                    );
+                    return;
+                }
+                let appended = model.snapshot();
+                if let Some(diff) = appended.diff(&after) {
+                    acc.violation(
+                        format!("C07/through-files/round-trip-of-what-was-appended/{}", super::common::diff_class(&appended, &after)),
+                        case,
+                        json!({"history": d.history_json(200), "diff_between_appended_and_read_back": diff}),
                     );
                     return;
                 }
